@@ -9,8 +9,13 @@ from harness.core import canon
 REJECT = (ValueError, TypeError, NotImplementedError)
 
 
+def _i(v):
+    v = float(v)
+    return int(round(v)) if v == v and abs(v) < 1e15 else -999999       # NaN / inf: a value no specification expects
+
+
 def ints(m):
-    return [[int(round(v)) for v in row] for row in m]
+    return [[_i(v) for v in row] for row in m]
 
 
 def observe(cfg, scitype, origin=0, fhvariant=0):
@@ -62,7 +67,7 @@ def observe(cfg, scitype, origin=0, fhvariant=0):
     o = {"rej": False, "nvars": 1 + nx,
          "fits": [{"X": ints(e["X"]), "y": ints(e["y"]), "ydim": e["ydim"]} for e in fits],
          "preds": [ints(e["X"])[0] for e in preds],
-         "ret": [int(round(v)) for v in p.values], "index": [int(i) - origin for i in p.index]}
+         "ret": [_i(v) for v in p.values], "index": [int(i) - origin for i in p.index]}
     # container shape promised for the scitype (numbers themselves are judged by TLC)
     for e in fits + preds:
         if e["ndim"] != want_ndim or (want_ndim == 3 and e["shape"][1] != 1 + nx) or len(e["X"]) != e["shape"][0]:
